@@ -44,13 +44,28 @@ int main (int argc, char** argv)
     out ("e1x", e1.x); out ("e1y", e1.y); out ("e2x", e2.x); out ("e2y", e2.y);
     out_int ("after1", c1); out_int ("after2", c2);
   });
-  // what the mode reports
+  // what the mode reports, on every path of set_Stokes (zero intensity and |p| = I included), also
+  // after the object carried another mean before
+  fn_paths ("reported_paths", [&] {
+    mode m; m.set_Stokes (Stokes<double> (3.0, -2.0, 1.0, 2.0));
+    Stokes<double> S = stokes_in ("s"); m.set_Stokes (S);
+    out_vec ("mean", m.get_mean ()); out_mat ("cov", m.get_covariance ());
+    out_mat ("x0", m.get_crosscovariance (0)); out_mat ("x1", m.get_crosscovariance (1));
+  });
   fn ("reported", [&] {
     mode m; Stokes<double> S = stokes_valid_in ("s"); m.set_Stokes (S);
     out_vec ("mean", m.get_mean ()); out_mat ("cov", m.get_covariance ());
     out_mat ("x0", m.get_crosscovariance (0)); out_mat ("x1", m.get_crosscovariance (1));
     out_mat ("x2", m.get_crosscovariance (2)); out_mat ("x3", m.get_crosscovariance (3));
+    if (!symbolic) { Matrix<4,4,double> C = m.get_covariance ();
+      for (unsigned i=0; i<4; i++) for (unsigned j=0; j<4; j++) { double dot = S[0]*S[0] - S[1]*S[1] - S[2]*S[2] - S[3]*S[3]; double eta = i == j ? (i == 0 ? 1 : -1) : 0;
+        expect ("reported covariance = S_i S_j - 1/2 eta_ij (S.S)", C[i][j], S[i]*S[j] - 0.5*eta*dot); } }
   });
+#ifndef SYMX_SYMBOLIC
+  fn ("reported_zero_plain", [&] { mode m; m.set_Stokes (Stokes<double> (3.0, -2.0, 1.0, 2.0)); m.set_Stokes (Stokes<double> (0.0, 0.0, 0.0, 0.0));
+    Matrix<4,4,double> C = m.get_covariance (), X = m.get_crosscovariance (0);
+    for (unsigned i=0; i<4; i++) for (unsigned j=0; j<4; j++) { expect ("zero-intensity mode reports zero covariance", C[i][j], 0.0); expect ("zero-intensity mode: lag-0 cross-covariance = covariance", X[i][j], 0.0); } }, 1);
+#endif
   // the instantaneous Stokes parameters for a polarizer given directly by a Hermitian root
   // quaternion r (the code's own convert, Jones*Spinor product and detection), used for the
   // exact ensemble moments: S = coherency of r*r
